@@ -158,10 +158,7 @@ impl Recreate for Slicing {
 
 impl ReturnType for Slicing {
     fn return_type(&self) -> Type {
-        self.lhs
-            .return_type()
-            .element_type()
-            .unwrap_or(Type::String)
+        self.lhs.return_type()
     }
 }
 
